@@ -1028,15 +1028,13 @@ Proof.
   intros H. unfold emitted_locals. f_equal. apply filter_ext_in. intros i Hi. rewrite (H i Hi). reflexivity.
 Qed.
 
-Theorem encode_designates : forall base h m rets dead sites e,
-  wf base -> run_pref base h [] = (m, rets, false) -> encode m dead sites = Ok e ->
+Theorem wf_encode_designates m dead sites e : wf m -> encode m dead sites = Ok e ->
   forall x, okD02 x m = true -> okD06 x m = true -> okD26 x m = true ->
   forall l mp, index_space (get_sp m x) = Ok (l, mp) ->
   forall it, In it (s_items (get_sp m x)) -> it_del it = false ->
   exists q, lookup mp (it_id it) = Some q /\ designates e x q = Some (it_fp it).
 Proof.
-  intros base h m rets dead sites e Wb Hrun He x H2 H6 H26 l mp H it Hin Hd.
-  pose proof (run_pref_wf _ _ _ _ _ _ Wb Hrun) as W.
+  intros W He x H2 H6 H26 l mp H it Hin Hd.
   destruct (wf_binding m x W H2 H6 H26 l mp H it Hin Hd) as [q [Hq Hn]].
   exists q. split; [exact Hq|].
   destruct (encode_ok _ _ _ _ He) as [lf [mf [lg [mg [lm [mm [Hf [Hg [Hm [Ei [Ef [Eg Em]]]]]]]]]]]].
@@ -1048,22 +1046,373 @@ Proof.
     rewrite emitted_locals_nocheck; [exact Hn|]. exact (wf_no_deleted_left m SM W H6 H26 _ _ H).
 Qed.
 
+(* the same for every state reached by a history, and for the final state of every checker case *)
+Theorem encode_designates : forall base h m rets dead sites e,
+  wf base -> run_pref base h [] = (m, rets, false) -> encode m dead sites = Ok e ->
+  forall x, okD02 x m = true -> okD06 x m = true -> okD26 x m = true ->
+  forall l mp, index_space (get_sp m x) = Ok (l, mp) ->
+  forall it, In it (s_items (get_sp m x)) -> it_del it = false ->
+  exists q, lookup mp (it_id it) = Some q /\ designates e x q = Some (it_fp it).
+Proof.
+  intros base h m rets dead sites e Wb Hrun. exact (wf_encode_designates m dead sites e (run_pref_wf _ _ _ _ _ _ Wb Hrun)).
+Qed.
+
 Corollary case_encode_designates (c : rcase) e :
   encode (final_model c) (dead_exports (h_ops c)) (sites c) = Ok e ->
   forall x, okD02 x (final_model c) = true -> okD06 x (final_model c) = true -> okD26 x (final_model c) = true ->
   forall l mp, index_space (get_sp (final_model c) x) = Ok (l, mp) ->
   forall it, In it (s_items (get_sp (final_model c) x)) -> it_del it = false ->
   exists q, lookup mp (it_id it) = Some q /\ designates e x q = Some (it_fp it).
+Proof. exact (wf_encode_designates _ _ _ e (wf_final_model c)). Qed.
+
+(* ------------------------------------------------------------------------------------------ *)
+(* 2'. link of okD26 with CheckReidx.known_D26, which is phrased on the history ("a Delete SF after an
+   ImportToLocal"): what one edit does to the item vector of the space it touches *)
+
+Inductive effect (o : op) (s : sp) (x x' : space) : Prop :=
+| EApp a : s_items x' = s_items x ++ [a] -> origN x' = origN x -> effect o s x x'
+| EDel id : o = Delete s id -> s_items x' = upd (N.to_nat id) (set_del true) (s_items x) -> origN x' = origN x -> effect o s x x'
+| EL2I id fp k : o = LocalToImport id fp -> s = SF ->
+    s_items x' = upd (N.to_nat id) (fun _ => mkItem id (Some k) false fp) (s_items x) -> origN x' = origN x -> effect o s x x'
+| EI2L k fp : o = ImportToLocal k fp -> s = SF ->
+    s_items x' = upd (N.to_nat k) (fun _ => mkItem k None false fp) (s_items x) -> origN x' = origN x -> effect o s x x'.
+
+Lemma upd_upd {A} (f g : A -> A) : forall n l, upd n g (upd n f l) = upd n (fun a => g (f a)) l.
+Proof. induction n as [|n IH]; intros [|a l]; cbn; try reflexivity. f_equal. apply IH. Qed.
+
+Lemma origN_bump x nl r items : (s_added x <= s_num x)%N ->
+  origN (mkSpace items r (s_num x + 1) (s_added x + 1) nl) = origN x.
+Proof. intros H. unfold origN. cbn [s_num s_added]. lia. Qed.
+
+Lemma step_effect m o m' r : wf m -> mstep m o = Ok (m', r) ->
+  m' = m \/ exists s x' imps', m' = with_sp m s x' imps' /\ effect o s (get_sp m s) x'.
 Proof.
-  intros He x H2 H6 H26 l mp H it Hin Hd.
-  pose proof (wf_final_model c) as W.
-  destruct (wf_binding _ x W H2 H6 H26 l mp H it Hin Hd) as [q [Hq Hn]].
-  exists q. split; [exact Hq|].
-  destruct (encode_ok _ _ _ _ He) as [lf [mf [lg [mg [lm [mm [Hf [Hg [Hm [Ei [Ef [Eg Em]]]]]]]]]]]].
-  unfold designates, space_of. rewrite Ei. unfold space_of_model in Hn.
-  destruct x; cbn [get_sp] in H.
-  - rewrite Ef. rewrite H in Hf. inversion Hf; subst. exact Hn.
-  - rewrite Eg. rewrite H in Hg. inversion Hg; subst. exact Hn.
-  - rewrite Em. rewrite H in Hm. inversion Hm; subst.
-    rewrite emitted_locals_nocheck; [exact Hn|]. exact (wf_no_deleted_left _ SM W H6 H26 _ _ H).
+  intros W H. destruct o as [s fp|s fp|s id|id fp|k fp|fp|s id|k|mem].
+  - right. destruct s; cbn [Reindex.step] in H.
+    + destruct (N.eqb _ _); [|discriminate]. injection H as Hm _. subst m'.
+      exists SF. eexists. exists (m_imports m). split; [reflexivity|]. eapply EApp; reflexivity.
+    + injection H as Hm _. subst m'.
+      exists SG. eexists. exists (m_imports m). split; [reflexivity|]. eapply EApp; reflexivity.
+    + injection H as Hm _. subst m'.
+      exists SM. eexists. exists (m_imports m). split; [reflexivity|]. eapply EApp; reflexivity.
+  - right. pose proof (wf_cnt _ _ _ (W s)) as Hc.
+    destruct s; cbn [Reindex.step] in H; rewrite push_import_eq in H.
+    + change (get_sp (with_sp m SF ?x ?i) SF) with x in H. cbv beta iota in H.
+      match type of H with (if ?c then _ else _) = _ => destruct c end; [|discriminate].
+      injection H as Hm _. subst m'. exists SF. eexists. eexists. split; [reflexivity|].
+      eapply EApp; [reflexivity|]. apply (origN_bump (m_f m)). exact Hc.
+    + cbv beta iota in H. injection H as Hm _. subst m'. exists SG. eexists. eexists. split; [reflexivity|].
+      eapply EApp; [reflexivity|]. apply (origN_bump (m_g m)). exact Hc.
+    + change (get_sp (with_sp m SM ?x ?i) SM) with x in H. cbv beta iota in H.
+      match type of H with (if ?c then _ else _) = _ => destruct c end; [|discriminate].
+      injection H as Hm _. subst m'. exists SM. eexists. eexists. split; [reflexivity|].
+      eapply EApp; [reflexivity|]. apply (origN_bump (m_m m)). exact Hc.
+  - right. cbn [Reindex.step] in H. destruct (delete_in m s id) as [m1|] eqn:E; [|discriminate].
+    injection H as Hm _. subst m'. destruct (delete_in_ok _ _ _ _ E) as [it [Hit ->]].
+    exists s. eexists. eexists. split; [reflexivity|]. eapply EDel; reflexivity.
+  - cbn [Reindex.step] in H. unfold nthN in H.
+    destruct (nth_error (s_items (m_f m)) (N.to_nat id)) as [it|] eqn:Eit; [|discriminate].
+    destruct (is_import it) eqn:Ei; [left; injection H as Hm _; congruence|]. right.
+    destruct (delete_in m SF id) as [m1|] eqn:E; [|discriminate].
+    destruct (delete_in_ok _ _ _ _ E) as [it0 [Hit0 Em1]].
+    rewrite push_import_eq in H. cbv beta iota in H. injection H as Hm _. subst m'.
+    exists SF. eexists. eexists. split.
+    + rewrite Em1. reflexivity.
+    + eapply (EL2I _ _ _ _ id fp); [reflexivity|reflexivity| |].
+      * cbn [s_items get_sp with_sp set_sp m_f]. unfold updN. rewrite upd_upd. reflexivity.
+      * cbn [get_sp with_sp set_sp m_f s_num s_added]. apply (origN_bump (m_f m)). exact (wf_cnt _ _ _ (W SF)).
+  - cbn [Reindex.step] in H.
+    destruct (nthN (m_imports m) k) as [im|]; [|discriminate].
+    destruct (negb (i_sp im =? 0)%N); [discriminate|].
+    unfold nthN in H.
+    destruct (nth_error (s_items (m_f m)) (N.to_nat k)) as [it|] eqn:Eit; [|discriminate].
+    destruct (is_local it) eqn:Ei; [left; injection H as Hm _; congruence|]. right.
+    destruct (delete_in m SF k) as [m1|] eqn:E; [|discriminate].
+    destruct (delete_in_ok _ _ _ _ E) as [it0 [Hit0 Em1]].
+    injection H as Hm _. subst m'.
+    exists SF. eexists. eexists. split.
+    + rewrite Em1. reflexivity.
+    + eapply (EI2L _ _ _ _ k fp); [reflexivity|reflexivity| |reflexivity].
+      cbn [s_items get_sp with_sp set_sp m_f]. unfold updN. rewrite upd_upd. reflexivity.
+  - right. cbn [Reindex.step] in H. injection H as Hm _. subst m'.
+    exists SG. eexists. exists (m_imports m). split; [reflexivity|]. eapply EApp; reflexivity.
+  - left. cbn [Reindex.step] in H. injection H as Hm _. congruence.
+  - left. cbn [Reindex.step] in H. injection H as Hm _. congruence.
+  - left. cbn [Reindex.step] in H. injection H as Hm _. congruence.
 Qed.
+
+Definition first_imports (x : space) : Prop :=
+  forall p it, p < origN x -> nth_error (s_items x) p = Some it -> is_import it = true.
+Definition noDL (x : space) : Prop :=
+  forall p it, p < origN x -> nth_error (s_items x) p = Some it -> is_local it = true -> it_del it = false.
+
+Lemma okD26_iff x m : okD26 x m = true <-> noDL (get_sp m x).
+Proof.
+  unfold okD26, noDL. split.
+  - intros H p it Hp Hn Hl. pose proof (negb_existsb_false _ _ H it (nth_In_firstn _ _ _ _ Hp Hn)) as H0.
+    cbv beta in H0. rewrite Hl in H0. exact H0.
+  - intros H. apply negb_true_iff. destruct (existsb _ _) eqn:E; [|reflexivity]. exfalso.
+    apply existsb_exists in E as [it [Hin Hb]]. apply andb_prop in Hb as [Hl Hd].
+    apply In_firstn_nth in Hin as [p [Hp Hn]]. rewrite (H p it Hp Hn Hl) in Hd. discriminate.
+Qed.
+Lemma first_imports_noDL x : first_imports x -> noDL x.
+Proof. intros H p it Hp Hn Hl. rewrite (import_not_local _ (H p it Hp Hn)) in Hl. discriminate. Qed.
+Lemma pristine_first_imports code imps x : wf_space code imps x -> s_recalc x = false -> first_imports x.
+Proof.
+  intros W Hr p it Hp Hn. destruct (wf_prist _ _ _ W Hr) as [Ha Hall]. apply (Hall p it Hn).
+  unfold origN in Hp. rewrite Ha in Hp. lia.
+Qed.
+
+Definition sp_eq_dec (a b : sp) : {a = b} + {a <> b}.
+Proof. decide equality. Defined.
+
+(* original imports stay imports under every edit except replace_import_in_module (on functions) *)
+Lemma step_first_imports m o m' r x : wf m -> mstep m o = Ok (m', r) ->
+  (x = SF -> is_i2l o = false) -> first_imports (get_sp m x) -> first_imports (get_sp m' x).
+Proof.
+  intros W H Hx F. destruct (step_effect _ _ _ _ W H) as [->|[s [x' [imps' [-> Eff]]]]]; [exact F|].
+  destruct (sp_eq_dec x s) as [->|Hne]; [|rewrite get_with_other by exact Hne; exact F].
+  rewrite get_with_same. pose proof (wf_orig _ _ _ (W s)) as Ho.
+  destruct Eff as [a Ei Eo|id Eop Ei Eo|id fp k Eop Es Ei Eo|k fp Eop Es Ei Eo]; intros p it Hp Hn; rewrite Eo in Hp; rewrite Ei in Hn.
+  - rewrite nth_error_app1 in Hn by lia. exact (F p it Hp Hn).
+  - destruct (nth_error_upd_del _ _ _ _ Hn) as [a [Ha [Eimp _]]].
+    pose proof (F p a Hp Ha) as Fa. unfold is_import, is_local in *. rewrite Eimp. exact Fa.
+  - destruct (Nat.eq_dec (N.to_nat id) p) as [<-|Hnp].
+    + rewrite nth_error_upd_same in Hn. destruct (nth_error _ _); [|discriminate]. cbn in Hn. inversion Hn. reflexivity.
+    + rewrite nth_error_upd_other in Hn by exact Hnp. exact (F p it Hp Hn).
+  - subst o. specialize (Hx Es). discriminate.
+Qed.
+
+(* no deleted local among the original imports of the function space: kept by every edit except Delete SF *)
+Lemma step_noDL m o m' r : wf m -> mstep m o = Ok (m', r) ->
+  is_del_f o = false -> noDL (m_f m) -> noDL (m_f m').
+Proof.
+  intros W H Hx F. destruct (step_effect _ _ _ _ W H) as [->|[s [x' [imps' [-> Eff]]]]]; [exact F|].
+  change (noDL (get_sp (with_sp m s x' imps') SF)). change (noDL (get_sp m SF)) in F.
+  destruct (sp_eq_dec SF s) as [<-|Hne]; [|rewrite get_with_other by exact Hne; exact F].
+  rewrite get_with_same. pose proof (wf_orig _ _ _ (W SF)) as Ho.
+  destruct Eff as [a Ei Eo|id Eop Ei Eo|id fp k Eop Es Ei Eo|k fp Eop Es Ei Eo]; intros p it Hp Hn; rewrite Eo in Hp; rewrite Ei in Hn.
+  - rewrite nth_error_app1 in Hn by lia. exact (F p it Hp Hn).
+  - subst o. discriminate.
+  - destruct (Nat.eq_dec (N.to_nat id) p) as [<-|Hnp].
+    + rewrite nth_error_upd_same in Hn. destruct (nth_error _ _); [|discriminate]. cbn in Hn. inversion Hn. discriminate.
+    + rewrite nth_error_upd_other in Hn by exact Hnp. exact (F p it Hp Hn).
+  - destruct (Nat.eq_dec (N.to_nat k) p) as [<-|Hnp].
+    + rewrite nth_error_upd_same in Hn. destruct (nth_error _ _); [|discriminate]. cbn in Hn. inversion Hn. reflexivity.
+    + rewrite nth_error_upd_other in Hn by exact Hnp. exact (F p it Hp Hn).
+Qed.
+
+(* globals and memories: an original import is never turned into a local, so D26 cannot arise there *)
+Lemma run_pref_first_imports x : x <> SF -> forall h m rets m' rets' b,
+  wf m -> run_pref m h rets = (m', rets', b) -> first_imports (get_sp m x) -> first_imports (get_sp m' x).
+Proof.
+  intros Hx. induction h as [|o h IH]; intros m rets m' rets' b W H F; cbn [run_pref] in H.
+  - inversion H; subst. exact F.
+  - destruct (mstep m o) as [[m1 r]|w] eqn:E.
+    + refine (IH m1 _ m' rets' b (step_wf _ _ _ _ W E) H _).
+      apply (step_first_imports _ _ _ _ x W E); [intros; contradiction|exact F].
+    + inversion H; subst. exact F.
+Qed.
+
+(* functions: outside "a Delete SF after an ImportToLocal" no deleted local is left among the original imports *)
+Lemma run_pref_noDL : forall h m rets m' rets' b,
+  wf m -> run_pref m h rets = (m', rets', b) -> after is_i2l is_del_f h = false ->
+  noDL (m_f m) -> (first_imports (m_f m) \/ existsb is_del_f h = false) -> noDL (m_f m').
+Proof.
+  induction h as [|o h IH]; intros m rets m' rets' b W H Ha F D; cbn [run_pref] in H.
+  - inversion H; subst. exact F.
+  - destruct (mstep m o) as [[m1 r]|w] eqn:E; [|inversion H; subst; exact F].
+    cbn [after] in Ha. apply orb_false_iff in Ha as [Ha1 Ha2].
+    pose proof (step_wf _ _ _ _ W E) as W1.
+    destruct (is_i2l o) eqn:Ei.
+    + cbn [andb] in Ha1.
+      assert (Hd : is_del_f o = false) by (destruct o; try discriminate; reflexivity).
+      exact (IH m1 _ m' rets' b W1 H Ha2 (step_noDL _ _ _ _ W E Hd F) (or_intror Ha1)).
+    + destruct D as [D|D].
+      * assert (F1 : first_imports (m_f m1)) by (apply (step_first_imports _ _ _ _ SF W E); [intros _; exact Ei|exact D]).
+        exact (IH m1 _ m' rets' b W1 H Ha2 (first_imports_noDL _ F1) (or_introl F1)).
+      * cbn [existsb] in D. apply orb_false_iff in D as [D1 D2].
+        exact (IH m1 _ m' rets' b W1 H Ha2 (step_noDL _ _ _ _ W E D1 F) (or_intror D2)).
+Qed.
+
+Theorem not_known_D26 (c : rcase) : known_D26 c = false -> forall x, okD26 x (final_model c) = true.
+Proof.
+  intros H x. apply okD26_iff. unfold final_model.
+  destruct (run_pref (mk_base c) (h_ops c) []) as [[m rets] b] eqn:E. cbn [fst].
+  pose proof (wf_mk_base c) as Wb.
+  assert (Fb : forall y, first_imports (get_sp (mk_base c) y))
+    by (intros y; apply (pristine_first_imports _ _ _ (Wb y)); destruct y; reflexivity).
+  destruct (sp_eq_dec x SF) as [->|Hne].
+  - exact (run_pref_noDL _ _ _ _ _ _ Wb E H (first_imports_noDL _ (Fb SF)) (or_introl (Fb SF))).
+  - apply first_imports_noDL. exact (run_pref_first_imports x Hne _ _ _ _ _ _ Wb E (Fb x)).
+Qed.
+
+(* in a reachable state the global and the memory space are never in D26 *)
+Theorem okD26_globals_memories (c : rcase) : okD26 SG (final_model c) = true /\ okD26 SM (final_model c) = true.
+Proof.
+  unfold final_model. destruct (run_pref (mk_base c) (h_ops c) []) as [[m rets] b] eqn:E. cbn [fst].
+  pose proof (wf_mk_base c) as Wb.
+  assert (Fb : forall y, first_imports (get_sp (mk_base c) y))
+    by (intros y; apply (pristine_first_imports _ _ _ (Wb y)); destruct y; reflexivity).
+  split; apply okD26_iff; apply first_imports_noDL.
+  - refine (run_pref_first_imports SG _ _ _ _ _ _ _ Wb E (Fb SG)). discriminate.
+  - refine (run_pref_first_imports SM _ _ _ _ _ _ _ Wb E (Fb SM)). discriminate.
+Qed.
+
+(* ------------------------------------------------------------------------------------------ *)
+(* C09: outside the three classes the emitted index space IS the reorganised vector, position by position, and
+   that vector holds exactly the live items, each once *)
+
+Theorem wf_space_is_index_space m x : wf m ->
+  okD02 x m = true -> okD06 x m = true -> okD26 x m = true ->
+  forall l mp, index_space (get_sp m x) = Ok (l, mp) ->
+  space_of_model m l x = map it_fp l /\
+  NoDup (map it_id l) /\
+  (forall it, In it l <-> In it (s_items (get_sp m x)) /\ it_del it = false) /\
+  (forall p it, nth_error l p = Some it -> lookup mp (it_id it) = Some (N.of_nat p)).
+Proof.
+  intros W H2 H6 H26 l mp H.
+  rewrite (ok02_unfold _ _ _ _ H) in H2.
+  destruct (index_space_wf _ _ _ (W x) _ _ H) as [El Emp]. rewrite El in H2.
+  pose proof (spec_ids_nodup (origN (get_sp m x)) _ (wf_ids_nodup _ _ _ (W x))) as Hnd. rewrite <- El in Hnd.
+  split; [|split; [exact Hnd|split]].
+  - unfold space_of_model, model_imports. rewrite model_imports_kind.
+    rewrite (import_order_agrees _ _ _ (W x) H6 H26 H2). rewrite El at 1.
+    rewrite (emitted_locals_spec _ _ (noD06_of_ok _ H6) (noD26_of_ok _ H26)).
+    rewrite <- map_app, <- spec_split, <- El. reflexivity.
+  - intros it. split.
+    + intros Hin. split; [rewrite El in Hin; exact (spec_incl _ _ Hin)|exact (wf_no_deleted_left m x W H6 H26 l mp H it Hin)].
+    + intros [Hin Hd]. rewrite El. exact (spec_keeps_live _ _ it Hin Hd).
+  - intros p it Hp. rewrite Emp. exact (mapping_pos l p it Hnd Hp).
+Qed.
+
+(* C11 / C10: the in-place conversions.  Right after convert_local_fn_to_import the id of the converted function
+   designates the new import; right after replace_import_in_module the id [k] (the ImportsID used as a FunctionID:
+   D07) designates the new local function. *)
+Lemma l2i_item m id fp m' r it : mstep m (LocalToImport id fp) = Ok (m', r) ->
+  nthN (s_items (m_f m)) id = Some it -> is_local it = true ->
+  nthN (s_items (m_f m')) id = Some (mkItem id (Some (lenN (m_imports m))) false fp) /\
+  m_imports m' = m_imports m ++ [mkImp 0 false fp].
+Proof.
+  intros H Hit Hl. cbn [Reindex.step] in H. rewrite Hit in H.
+  rewrite (local_not_import _ Hl) in H.
+  destruct (delete_in m SF id) as [m1|] eqn:E; [|discriminate].
+  destruct (delete_in_ok _ _ _ _ E) as [it0 [Hit0 Em1]].
+  assert (it0 = it) by (unfold nthN in Hit; cbn [get_sp] in Hit0; congruence). subst it0.
+  assert (Hloc : it_imp it = None) by (unfold is_local in Hl; destruct (it_imp it); [discriminate|reflexivity]).
+  rewrite Hloc in Em1.
+  rewrite push_import_eq in H. cbv beta iota in H. injection H as Hm _. subst m' m1.
+  cbn [s_items get_sp with_sp set_sp m_f m_imports]. split; [|reflexivity].
+  rewrite nthN_updN_same. unfold nthN. rewrite nth_error_upd_same. unfold nthN in Hit. rewrite Hit. reflexivity.
+Qed.
+Lemma i2l_item m k fp m' r it : mstep m (ImportToLocal k fp) = Ok (m', r) ->
+  nthN (s_items (m_f m)) k = Some it -> is_import it = true ->
+  nthN (s_items (m_f m')) k = Some (mkItem k None false fp).
+Proof.
+  intros H Hit Hi. cbn [Reindex.step] in H.
+  destruct (nthN (m_imports m) k) as [im|]; [|discriminate].
+  destruct (negb (i_sp im =? 0)%N); [discriminate|].
+  rewrite Hit in H. rewrite (import_not_local _ Hi) in H.
+  destruct (delete_in m SF k) as [m1|] eqn:E; [|discriminate].
+  destruct (delete_in_ok _ _ _ _ E) as [it0 [Hit0 Em1]].
+  injection H as Hm _. subst m' m1.
+  cbn [s_items get_sp with_sp set_sp m_f m_imports].
+  rewrite nthN_updN_same. unfold nthN. rewrite nth_error_upd_same. unfold nthN in Hit. cbn [get_sp]. rewrite Hit. reflexivity.
+Qed.
+
+Theorem l2i_binding m id fp m' r it : wf m -> mstep m (LocalToImport id fp) = Ok (m', r) ->
+  nthN (s_items (m_f m)) id = Some it -> is_local it = true ->
+  okD02 SF m' = true -> okD06 SF m' = true -> okD26 SF m' = true ->
+  forall l mp, index_space (m_f m') = Ok (l, mp) ->
+  exists q, lookup mp id = Some q /\ nthN (space_of_model m' l SF) q = Some fp.
+Proof.
+  intros W H Hit Hl H2 H6 H26 l mp Hs.
+  destruct (l2i_item _ _ _ _ _ _ H Hit Hl) as [Hnew _].
+  exact (wf_binding m' SF (step_wf _ _ _ _ W H) H2 H6 H26 l mp Hs _ (nth_error_In _ _ Hnew) eq_refl).
+Qed.
+Theorem i2l_binding m k fp m' r it : wf m -> mstep m (ImportToLocal k fp) = Ok (m', r) ->
+  nthN (s_items (m_f m)) k = Some it -> is_import it = true ->
+  okD02 SF m' = true -> okD06 SF m' = true -> okD26 SF m' = true ->
+  forall l mp, index_space (m_f m') = Ok (l, mp) ->
+  exists q, lookup mp k = Some q /\ nthN (space_of_model m' l SF) q = Some fp.
+Proof.
+  intros W H Hit Hi H2 H6 H26 l mp Hs.
+  pose proof (i2l_item _ _ _ _ _ _ H Hit Hi) as Hnew.
+  exact (wf_binding m' SF (step_wf _ _ _ _ W H) H2 H6 H26 l mp Hs _ (nth_error_In _ _ Hnew) eq_refl).
+Qed.
+
+(* ------------------------------------------------------------------------------------------ *)
+(* everything in the checker's vocabulary: for every case (any base, any history), outside the classes D02, D06 and
+   D26 as CheckReidx.v decides them, every live item's id designates - by Wasm's rule applied to what [encode]
+   returns - the entity with that item's fingerprint *)
+Theorem case_binding_outside_known_classes (c : rcase) e :
+  known_D02 c = false -> known_D06 c = false -> known_D26 c = false ->
+  encode (final_model c) (dead_exports (h_ops c)) (sites c) = Ok e ->
+  forall x l mp, index_space (get_sp (final_model c) x) = Ok (l, mp) ->
+  (forall it, In it (s_items (get_sp (final_model c) x)) -> it_del it = false ->
+     exists q, lookup mp (it_id it) = Some q /\ designates e x q = Some (it_fp it)) /\
+  (forall it, In it (s_items (get_sp (final_model c) x)) -> it_del it = true -> lookup mp (it_id it) = None) /\
+  (forall it, In it l -> it_del it = false).
+Proof.
+  intros K2 K6 K26 He x l mp H.
+  pose proof (not_known_D02 c K2 x) as H2. pose proof (not_known_D06 c K6 x) as H6. pose proof (not_known_D26 c K26 x) as H26.
+  pose proof (wf_final_model c) as W.
+  split; [|split].
+  - exact (wf_encode_designates _ _ _ e W He x H2 H6 H26 l mp H).
+  - exact (wf_deleted_item_unmapped _ x W H6 H26 l mp H).
+  - exact (wf_no_deleted_left _ x W H6 H26 l mp H).
+Qed.
+
+Local Open Scope N_scope.
+(* non-vacuity: a history with a deletion, a conversion in each direction, an added import and added locals lies
+   outside the three classes, encodes, and the theorem's conclusion is visible on it (id 2 is the deleted one) *)
+Example reachable_binding_nonvacuous :
+  let c := mkRC [(0, 1); (1, 2); (0, 3)] [11; 12; 99] [5] [7] 0
+             [Delete SF 2; LocalToImport 3 41; AddImport SF 21; AddLocal SG 6; AddImport SM 8; ImportToLocal 0 51]
+             [] [] false None false false in
+  known_D02 c = false /\ known_D06 c = false /\ known_D26 c = false /\
+  map it_fp (s_items (m_f (final_model c))) = [51; 3; 11; 41; 99; 21] /\
+  (match encode (final_model c) [] [] with
+   | Ok e => map (fun id => match lookup (snd (ispace_m (final_model c) SF)) id with
+                            | Some q => designates e SF q | None => None end) [0; 1; 2; 3; 4; 5]
+   | Panic _ => []
+   end) = [Some 51; Some 3; None; Some 41; Some 99; Some 21].
+Proof. vm_compute. repeat split; reflexivity. Qed.
+(* the hypothesis okD02 cannot be dropped: the same edits with the import added before the conversion (D02) *)
+Example reachable_binding_needs_okD02 :
+  let c := mkRC [(0, 1); (1, 2); (0, 3)] [11; 12; 99] [5] [7] 0
+             [AddImport SF 21; Delete SF 2; LocalToImport 3 41; AddLocal SG 6; AddImport SM 8; ImportToLocal 0 51]
+             [] [] false None false false in
+  okD02 SF (final_model c) = false /\ okD06 SF (final_model c) = true /\ okD26 SF (final_model c) = true /\
+  map it_fp (s_items (m_f (final_model c))) = [51; 3; 11; 41; 99; 21] /\
+  (match encode (final_model c) [] [] with
+   | Ok e => map (fun id => match lookup (snd (ispace_m (final_model c) SF)) id with
+                            | Some q => designates e SF q | None => None end) [0; 1; 2; 3; 4; 5]
+   | Panic _ => []
+   end) = [Some 51; Some 3; None; Some 21; Some 99; Some 41].
+Proof. vm_compute. repeat split; reflexivity. Qed.
+
+Print Assumptions step_wf.
+Print Assumptions run_pref_wf.
+Print Assumptions wf_mk_base.
+Print Assumptions wf_final_model.
+Print Assumptions known_D02_link.
+Print Assumptions known_D06_link.
+Print Assumptions not_known_D26.
+Print Assumptions index_space_wf.
+Print Assumptions wf_index_space_total.
+Print Assumptions import_order_agrees.
+Print Assumptions space_binding.
+Print Assumptions wf_binding.
+Print Assumptions reachable_binding.
+Print Assumptions case_binding.
+Print Assumptions wf_no_deleted_left.
+Print Assumptions wf_deleted_unmapped.
+Print Assumptions wf_deleted_item_unmapped.
+Print Assumptions wf_encode_designates.
+Print Assumptions encode_designates.
+Print Assumptions case_encode_designates.
+Print Assumptions wf_space_is_index_space.
+Print Assumptions l2i_binding.
+Print Assumptions i2l_binding.
+Print Assumptions case_binding_outside_known_classes.
